@@ -6,6 +6,11 @@
 #include <cassert>
 #include <cmath>
 #include <mutex>
+#ifdef TFHE_VERIF
+#include "../../tfhe_verif_hooks.h"
+#else
+#define TFHE_VERIF_EVENT(ev, obj, buf, a, b)
+#endif
 
 FFT_Processor_fftw::FFT_Processor_fftw(const int32_t N): _2N(2*N),N(N),Ns2(N/2) {
     rev_in = (double*) malloc(sizeof(double) * _2N);
@@ -18,49 +23,63 @@ FFT_Processor_fftw::FFT_Processor_fftw(const int32_t N): _2N(2*N),N(N),Ns2(N/2) 
 	omegaxminus1[x]=cplx(cos(x*M_PI/N)-1.,-sin(x*M_PI/N)); // instead of cos(x*M_PI/N)-1. + sin(x*M_PI/N) * I
 	//exp(i.x.pi/N)-1
     }
+    TFHE_VERIF_EVENT("ProcCtor", this, rev_in, 0, 0);
 }
 
 void FFT_Processor_fftw::plan_fftw() {
     //ensure fftw plan thread safety
     static std::mutex mutex;
     std::lock_guard<std::mutex> lock(mutex);
+    TFHE_VERIF_EVENT("LockAcq", this, 0, 0, 0);
+    TFHE_VERIF_EVENT("PlanCreate", this, 0, 0, 0);
     rev_p = fftw_plan_dft_r2c_1d(_2N, rev_in, rev_out, FFTW_ESTIMATE);
     p = fftw_plan_dft_c2r_1d(_2N, in, out, FFTW_ESTIMATE);
+    TFHE_VERIF_EVENT("PlanCreated", this, 0, 0, 0);
+    TFHE_VERIF_EVENT("LockRel", this, 0, 0, 0);
 }
 
 void FFT_Processor_fftw::execute_reverse_int(cplx* res, const int* a) {
     cplx* rev_out_cplx = (cplx*) rev_out; //fftw_complex and cplx are layout-compatible
+    TFHE_VERIF_EVENT("FftBegin", this, rev_in, 0, 0);
     for (int32_t i=0; i<N; i++) rev_in[i]=a[i]/2.;
     for (int32_t i=0; i<N; i++) rev_in[N+i]=-rev_in[i];
     fftw_execute(rev_p);
     for (int32_t i=0; i<Ns2; i++) res[i]=rev_out_cplx[2*i+1];
+    TFHE_VERIF_EVENT("FftEnd", this, rev_in, 0, 0);
     for (int32_t i=0; i<=Ns2; i++) assert(abs(rev_out_cplx[2*i])<1e-20);
 }
 void FFT_Processor_fftw::execute_reverse_torus32(cplx* res, const Torus32* a) {
     static const double _2pm33 = 1./double(INT64_C(1)<<33);
     int32_t* aa = (int32_t*) a;
     cplx* rev_out_cplx = (cplx*) rev_out; //fftw_complex and cplx are layout-compatible
+    TFHE_VERIF_EVENT("FftBegin", this, rev_in, 1, 0);
     for (int32_t i=0; i<N; i++) rev_in[i]=aa[i]*_2pm33;
     for (int32_t i=0; i<N; i++) rev_in[N+i]=-rev_in[i];
     fftw_execute(rev_p);
     for (int32_t i=0; i<Ns2; i++) res[i]=rev_out_cplx[2*i+1];
+    TFHE_VERIF_EVENT("FftEnd", this, rev_in, 1, 0);
     for (int32_t i=0; i<=Ns2; i++) assert(abs(rev_out_cplx[2*i])<1e-20);
 }
 void FFT_Processor_fftw::execute_direct_Torus32(Torus32* res, const cplx* a) {
     static const double _2p32 = double(INT64_C(1)<<32);
     static const double _1sN = double(1)/double(N);
     cplx* in_cplx = (cplx*) in; //fftw_complex and cplx are layout-compatible
+    TFHE_VERIF_EVENT("FftBegin", this, in, 2, 0);
     for (int32_t i=0; i<=Ns2; i++) in_cplx[2*i]=0;
     for (int32_t i=0; i<Ns2; i++) in_cplx[2*i+1]=a[i];
     fftw_execute(p);
     for (int32_t i=0; i<N; i++) res[i]=Torus32(int64_t(out[i]*_1sN*_2p32));
+    TFHE_VERIF_EVENT("FftEnd", this, in, 2, 0);
     //pas besoin du fmod... Torus32(int64_t(fmod(rev_out[i]*_1sN,1.)*_2p32));
     for (int32_t i=0; i<N; i++) assert(fabs(out[N+i]+out[i])<1e-20);
 }
 
 FFT_Processor_fftw::~FFT_Processor_fftw() {
+    TFHE_VERIF_EVENT("ProcDtor", this, rev_in, 0, 0);
+    TFHE_VERIF_EVENT("PlanDestroy", this, 0, 0, 0);
     fftw_destroy_plan(p);
     fftw_destroy_plan(rev_p);
+    TFHE_VERIF_EVENT("PlanDestroyed", this, 0, 0, 0);
     fftw_free(in); fftw_free(rev_out);	
     free(rev_in); free(out);
     delete[] omegaxminus1;
